@@ -283,6 +283,53 @@ Example C08_narrowest_cidr_example :
   st_mem (process nest_env (nest_q [192;168;7;9]) empty_store) = [([111;107], [192;168;7;9], [])].
 Proof. exact narrowest_cidr_example. Qed.
 
+(** * Round 8 (O): runtime clients *)
+(** home.clientOrArtificial asks the persistent clients first, then the runtime
+    index ([client_or_artificial], [find_multiple]).  For the id lists the
+    program builds, whatever the runtime index holds (rDNS, WHOIS, ARP, hosts
+    file, DHCP host names), the query log's finder gives the flag of the
+    persistent client: a runtime record never hides an ignored client, at
+    recording time and on the search side. *)
+Theorem C08_runtime_record_never_hides_ignored_client : forall ix dhcp rt q,
+  find_multiple ix dhcp rt (ids_of q) = qlog_client_ignored ix dhcp (ids_of q).
+Proof. exact runtime_record_never_hides. Qed.
+Print Assumptions C08_runtime_record_never_hides_ignored_client.
+
+Theorem C08_runtime_record_never_hides_on_search : forall ix dhcp rt mac_of e,
+  find_multiple ix dhcp rt (stored_ids mac_of e) = qlog_client_ignored ix dhcp (stored_ids mac_of e).
+Proof. exact runtime_record_never_hides_stored. Qed.
+Print Assumptions C08_runtime_record_never_hides_on_search.
+
+(** Runtime index first: the flagged client of 192.168.5.0/24 with a runtime
+    record for 192.168.5.9 is no longer ignored. *)
+Example C08_runtime_first_refuted :
+  let rt := fun a : addr => addr_eqb a ([192;168;5;9], []) in
+  qlog_client_ignored nest_ix (fun _ => None) (ids_of (nest_q [192;168;5;9])) = true /\
+  find_multiple nest_ix (fun _ => None) rt (ids_of (nest_q [192;168;5;9])) = true /\
+  find_multiple_rt_first nest_ix (fun _ => None) rt (ids_of (nest_q [192;168;5;9])) = false.
+Proof. exact runtime_first_refuted. Qed.
+
+(** * Round 8 (P): the configuration of the statistics *)
+(** After any history of accepted PUT /control/stats/config/update requests the
+    enabled flag and the ignore list in force are those of the LAST one,
+    whatever the state before it (in particular: disabled). *)
+Theorem C08_stats_ignore_list_follows_last_put : forall puts c e l,
+  sconf_run (puts ++ [(e, l)]) c = {| sc_enabled := e; sc_ignored := l |}.
+Proof. exact stats_ignore_list_follows_last_put. Qed.
+Print Assumptions C08_stats_ignore_list_follows_last_put.
+
+Theorem C08_disabled_statistics_record_nothing : forall ev q st,
+  st_stats (process_gated false ev q st) = st_stats st /\ st_units (process_gated false ev q st) = st_units st /\
+  st_mem (process_gated false ev q st) = st_mem (process ev q st).
+Proof. exact process_gated_off. Qed.
+Print Assumptions C08_disabled_statistics_record_nothing.
+
+Example C08_guarded_put_refuted :
+  let c0 := {| sc_enabled := true; sc_ignored := [[97]] |} in
+  sc_ignored (sconf_put_guarded true [[98]] (sconf_put_guarded false [[97]] c0)) = [[97]] /\
+  sc_ignored (sconf_run [(false, [[97]]); (true, [[98]])] c0) = [[98]].
+Proof. exact guarded_put_refuted. Qed.
+
 (** * The modelled ignore engine (aghnet.NewIgnoreEngine) *)
 
 (** Every spelling of a name (any letter case, with or without the trailing
